@@ -1,6 +1,7 @@
 package harness
 
 import (
+	"context"
 	"time"
 	"bytes"
 	"fmt"
@@ -48,6 +49,7 @@ type Rec struct {
 	Items   []Item
 	Started int
 	Stopped int
+	StartPanic string // a log call made from inside Start panicked
 	// behaviour
 	Slow    int       // yields inside Append/Write
 	SleepMs int       // simulated time every item takes inside Append/Write
@@ -210,8 +212,9 @@ func fieldString(fs []log.Field, key string) string {
 // RecAppender is the recording appender plugin ("Rec").
 type RecAppender struct {
 	log.AppenderBase
-	Slow int  `PluginAttribute:"slow,default=0"`
-	rec  *Rec
+	Slow     int  `PluginAttribute:"slow,default=0"`
+	StartLog bool `PluginAttribute:"startLog,default=false"` // the appender reports its own start through a tag (a component logging while Refresh is under way)
+	rec      *Rec
 }
 
 func (a *RecAppender) r() *Rec {
@@ -229,6 +232,16 @@ func (a *RecAppender) Start() error {
 	r.mu.Lock()
 	r.Started++
 	r.mu.Unlock()
+	if a.StartLog {
+		pv, st := call(func() {
+			log.Info(context.Background(), log.TagAppDef, log.String("id", "startlog"), log.String("msg", "appender "+a.Name+" started"))
+		})
+		if pv != nil {
+			r.mu.Lock()
+			r.StartPanic = fmt.Sprintf("%v at %s", pv, panicSite(st))
+			r.mu.Unlock()
+		}
+	}
 	return nil
 }
 
